@@ -63,7 +63,11 @@ QB = ((("a", "b"), ("b", "c"), ("c", "d"), ("d", "e")), ("e", "a"),
 QC = ((("a", "b"), ("b", "c"), ("c", "d"), ("d", "e"), ("e", "f", "x"),
        ("f", "a", "x")), ("x",),
       {"a": 4, "b": 4, "c": 4, "d": 4, "e": 4, "f": 4, "x": 3})
-QS = {"A": QA, "B": QB, "C": QC}
+# same fingerprint as A under the default hash method (index order inside a
+# tensor and inside the output differs) but a DIFFERENT contraction
+QA2 = ((("b", "a"), ("b", "c"), ("d", "c")), ("d", "a"),
+       {"a": 2, "b": 3, "c": 4, "d": 5})
+QS = {"A": QA, "B": QB, "C": QC, "A2": QA2}
 
 HK = dict(methods=["greedy"], max_repeats=1, optlib="random", parallel=False)
 
@@ -110,6 +114,7 @@ def harnesses(tier):
         # name, optimizer kind, per-thread query lists, preemption bound
         ("rh-mem-2x1-distinct", "rh-mem", [["A"], ["B"]], b),
         ("rh-mem-2x1-same", "rh-mem", [["A"], ["A"]], b),
+        ("rh-mem-2x1-same-fingerprint", "rh-mem", [["A"], ["A2"]], b),
         ("rh-mem-2x2", "rh-mem", [["A", "B"], ["B", "A"]], b2),
         ("rh-mem-3x1", "rh-mem", [["A"], ["B"], ["C"]], b2),
         ("rh-disk-2x1", "rh-disk", [["A"], ["B"]], b),
@@ -266,7 +271,7 @@ def work_seq(k, tier, seed, res):
         par._verif_orig_get_pool = par.get_pool
         par.get_pool = lambda *a, **kw: None
     try:
-        names = ["A", "B", "C"]
+        names = ["A", "A2", "B", "C"]
         for L in (1, 2, 3):
             for seq in itertools.product(names, repeat=L):
                 for entry in ("search", "call", "interface-tree",
@@ -313,7 +318,7 @@ def work_seq(k, tier, seed, res):
                             f"sequence:{kind}:{cls}",
                             {"optimizer": kind, "sequence": seq,
                              "entry": entry}, bad[:3], max_per_unit=2)
-        res.sample({"optimizer": kind, "sequences": 39,
+        res.sample({"optimizer": kind, "sequences": 84,
                     "entries": ["search", "call", "interface-tree",
                                 "interface-path"]}, cap=1)
     finally:
@@ -328,7 +333,7 @@ def work_ident(tier, seed, res):
         for kind in ("rh-mem", "auto-cache", "rrg-mem", "auto-nocache"):
             opt = make_optimizer(kind, root)
             idents = []
-            for qn in ["A", "B", "A", "C", "B", "C", "A"]:
+            for qn in ["A", "B", "A2", "C", "B", "A", "C", "A2"]:
                 box = {}
 
                 def run():
